@@ -21,6 +21,12 @@
 //          search object on the same problem search::load()s it; every individual is then evaluated through
 //          both proxies:  hit = the wrapped evaluator was NOT called
 //          -> OK | save ret | load ret | hex of the file | hex of cache::save of the first proxy | n (sig find-in-original find-in-reloaded find-just-before hit-through-reloaded-proxy value)*
+//   MODEL <scheme> <comp> <classes> <xslot> <nprog> <prog>... <ntrain> {<label> <in0> <in1> <in2>}... <nquery> {<in0> <in1> <in2>}...
+//          (the case format of harness/h_lambda.cc: scheme reg|dyn|gauss|bin, comp ind|team|wta|mv, prog x0|x1|x2|r<seed>,
+//          label i:<class>|d:<hex64>, inputs v|d:<hex64>)  a trained model of that kind is built on the training rows,
+//          saved with serialize::save, reloaded with serialize::lambda::load, saved again
+//          -> OK | saved | loaded 1|0|EXC.. | hex of the text | hex of the text saved by the reloaded model | n (prediction-original prediction-reloaded)*
+//             over the queries; prediction = value token (regression) or <label>/<hex64 sureness>
 //   SSET 2 / SSET 3 = the symbol sets of the second problem objects
 // types: H F MEP GA DE TEAM POPMEP POPGA POPDE POPTEAM SUMMEP SUMGA SUMDE DIST MAT
 //        DISTX = DIST fed with finite values whose squares overflow (non-finite second moment)
@@ -800,6 +806,140 @@ void run_search(const std::vector<std::string> &w)
   p.env.cache_size = old_cache;
   p.env.misc.serialization_file = old_file;
 }
+// ---- trained models: serialize::save / serialize::lambda::load -------------------------
+src_problem *SP = nullptr;
+
+value_t parse_val(const std::string &t)
+{
+  if (t == "v") return {};
+  if (t.size() > 2 && t[1] == ':')
+  {
+    if (t[0] == 'i') return static_cast<D_INT>(std::stol(t.substr(2)));
+    if (t[0] == 'd') return double_of(std::stoull(t.substr(2), nullptr, 16));
+  }
+  throw std::runtime_error("bad value token " + t);
+}
+std::string show_val(const value_t &v)
+{
+  switch (v.index())
+  {
+  case d_void: return "v";
+  case d_int: return "i:" + std::to_string(std::get<D_INT>(v));
+  case d_double:
+  {
+    const double d(std::get<D_DOUBLE>(v));
+    return d != d ? "d:7ff8000000000000" : "d:" + hex64(bits_of(d));
+  }
+  default: return "s";
+  }
+}
+std::string show_tag(const classification_result &c)
+{
+  const double s(c.sureness);
+  return std::to_string(c.label) + "/" + (s != s ? std::string("7ff8000000000000") : hex64(bits_of(s)));
+}
+std::string predict_src(const basic_src_lambda_f &l, const dataframe::example &e, bool cls)
+{
+  return cls ? show_tag(l.tag(e)) : show_val(l(e));
+}
+
+i_mep model_prog(const std::string &spec)
+{
+  if (spec[0] == 'x')
+  {
+    symbol *s(SP->sset.decode("X" + std::to_string(std::stoi(spec.substr(1)) + 1)));
+    if (!s) throw std::runtime_error("no variable");
+    return i_mep(std::vector<gene>{gene(std::pair<symbol *, std::vector<index_t>>{s, {}})});
+  }
+  random::seed(static_cast<unsigned>(std::stoul(spec.substr(1))));
+  return i_mep(*SP);
+}
+template<class P> P model_program(const std::vector<std::string> &specs);
+template<> i_mep model_program<i_mep>(const std::vector<std::string> &specs) { return model_prog(specs.at(0)); }
+template<> team<i_mep> model_program<team<i_mep>>(const std::vector<std::string> &specs)
+{
+  std::vector<i_mep> v;
+  for (const auto &s : specs) v.push_back(model_prog(s));
+  return team<i_mep>(v);
+}
+
+template<class M, class P, class MK>
+void model_case(const std::vector<std::string> &progs, const std::vector<dataframe::example> &query, MK mk)
+{
+  constexpr bool cls = std::is_base_of_v<core_class_lambda_f, M>;
+  std::unique_ptr<P> prg(new P(model_program<P>(progs)));
+  std::unique_ptr<M> m(new M(mk(*prg, SP->data())));
+  prg.reset();
+  std::stringstream ss;
+  const bool saved(serialize::save(ss, *m));
+  const std::string text(ss.str());
+  std::unique_ptr<basic_src_lambda_f> l2;
+  std::string loaded("1");
+  try { l2 = serialize::lambda::load<P>(ss, SP->sset); }
+  catch (const std::exception &e) { loaded = std::string("EXC:") + e.what(); for (auto &ch : loaded) if (ch == ' ' || ch == '|') ch = '_'; }
+  if (!l2 && loaded == "1") loaded = "0";
+  std::string text2;
+  if (l2)
+  {
+    std::stringstream s2;
+    serialize::save(s2, *l2);
+    text2 = s2.str();
+  }
+  std::cout << "OK | " << saved << " | " << loaded << " | " << to_hex(text) << " | " << to_hex(text2) << " | " << query.size();
+  for (const auto &e : query)
+    std::cout << ' ' << predict_src(*m, e, cls) << ' ' << (l2 ? predict_src(*l2, e, cls) : std::string("-"));
+  std::cout << '\n';
+}
+
+void run_model(const std::vector<std::string> &w)
+{
+  using IND = i_mep;
+  using TEAM = team<i_mep>;
+  using MV_DYN = team_class_lambda_f<IND, true, true, basic_dyn_slot_lambda_f, team_composition::mv>;
+  using MV_GAUSS = team_class_lambda_f<IND, true, true, basic_gaussian_lambda_f, team_composition::mv>;
+  using MV_BIN = team_class_lambda_f<IND, true, true, basic_binary_lambda_f, team_composition::mv>;
+  std::size_t p(1);
+  auto next([&]() -> const std::string & { if (p >= w.size()) throw std::runtime_error("short line"); return w[p++]; });
+  const std::string key(next() + "/" + w.at(2));
+  ++p;
+  const long classes(std::stol(next()));
+  const unsigned xs(static_cast<unsigned>(std::stoul(next())));
+  std::vector<std::string> progs;
+  for (long n(std::stol(next())); n > 0; --n) progs.push_back(next());
+  dataframe &d(SP->data());
+  d.clear();
+  d.classes_map_.clear();
+  for (long c(0); c < classes; ++c) d.classes_map_["c" + std::to_string(c)] = static_cast<class_t>(c);
+  for (long n(std::stol(next())); n > 0; --n)
+  {
+    dataframe::example e;
+    e.output = parse_val(next());
+    for (int k(0); k < 3; ++k) e.input.push_back(parse_val(next()));
+    d.push_back(e);
+  }
+  std::vector<dataframe::example> query;
+  for (long n(std::stol(next())); n > 0; --n)
+  {
+    dataframe::example e;
+    for (int k(0); k < 3; ++k) e.input.push_back(parse_val(next()));
+    query.push_back(e);
+  }
+  auto reg([](const auto &prg, dataframe &) { return reg_lambda_f<std::decay_t<decltype(prg)>>(prg); });
+#define MCASE(K, M, P, MK) if (key == K) { model_case<M, P>(progs, query, MK); return; }
+  MCASE("reg/ind", reg_lambda_f<IND>, IND, reg)
+  MCASE("reg/team", reg_lambda_f<TEAM>, TEAM, reg)
+  MCASE("dyn/ind", dyn_slot_lambda_f<IND>, IND, ([xs](const IND &q, dataframe &df) { return dyn_slot_lambda_f<IND>(q, df, xs); }))
+  MCASE("dyn/wta", dyn_slot_lambda_f<TEAM>, TEAM, ([xs](const TEAM &q, dataframe &df) { return dyn_slot_lambda_f<TEAM>(q, df, xs); }))
+  MCASE("dyn/mv", MV_DYN, TEAM, ([xs](const TEAM &q, dataframe &df) { return MV_DYN(q, df, xs); }))
+  MCASE("gauss/ind", gaussian_lambda_f<IND>, IND, ([](const IND &q, dataframe &df) { return gaussian_lambda_f<IND>(q, df); }))
+  MCASE("gauss/wta", gaussian_lambda_f<TEAM>, TEAM, ([](const TEAM &q, dataframe &df) { return gaussian_lambda_f<TEAM>(q, df); }))
+  MCASE("gauss/mv", MV_GAUSS, TEAM, ([](const TEAM &q, dataframe &df) { return MV_GAUSS(q, df); }))
+  MCASE("bin/ind", binary_lambda_f<IND>, IND, ([](const IND &q, dataframe &df) { return binary_lambda_f<IND>(q, df); }))
+  MCASE("bin/wta", binary_lambda_f<TEAM>, TEAM, ([](const TEAM &q, dataframe &df) { return binary_lambda_f<TEAM>(q, df); }))
+  MCASE("bin/mv", MV_BIN, TEAM, ([](const TEAM &q, dataframe &df) { return MV_BIN(q, df); }))
+#undef MCASE
+  std::cout << "BADCASE " << key << '\n';
+}
 }  // namespace
 
 int main()
@@ -809,6 +949,15 @@ int main()
   P = &ps;
   problems ps2;
   P2 = &ps2;
+  src_problem spr;
+  {
+    std::istringstream csv("1.0,1.0,2.0,3.0\n2.0,4.0,5.0,6.0\n3.0,7.0,8.0,9.5\n");
+    spr.data().read_csv(csv);
+  }
+  spr.env.init();
+  spr.env.mep.code_length = 12;
+  spr.setup_symbols();
+  SP = &spr;
 
   std::ios::sync_with_stdio(false);
   std::string line;
@@ -826,6 +975,11 @@ int main()
           std::cout << ' ' << hex64(s->opcode()) << ' ' << s->arity() << ' '
                     << (s->terminal() && terminal::cast(s.get())->parametric() ? 1 : 0);
         std::cout << '\n';
+        continue;
+      }
+      if (w.size() > 8 && w[0] == "MODEL")
+      {
+        run_model(w);
         continue;
       }
       if (w.size() == 6 && w[0] == "SEARCH")
